@@ -11,6 +11,7 @@ import (
 	"github.com/tobgu/qframe/config/csv"
 	"github.com/tobgu/qframe/config/eval"
 	"github.com/tobgu/qframe/config/groupby"
+	"github.com/tobgu/qframe/config/newqf"
 	"github.com/tobgu/qframe/types"
 
 	"verif/harness/core"
@@ -47,6 +48,9 @@ func c10Base() model.Frame {
 		{Name: "i2", Kind: model.Int, Cells: []model.Cell{model.I(3), model.I(2), model.I(1)}},
 		// the same value set as e, declared in the other order: a different enum type
 		{Name: "e4", Kind: model.Enum, EnumVals: []string{"y", "x"}, Cells: []model.Cell{model.S("x"), N, model.S("y")}},
+		// two different enum types whose value lists read the same when joined by blanks
+		{Name: "e5", Kind: model.Enum, EnumVals: []string{"san jose", "ca"}, Cells: []model.Cell{model.S("ca"), N, model.S("san jose")}},
+		{Name: "e6", Kind: model.Enum, EnumVals: []string{"san", "jose ca"}, Cells: []model.Cell{model.S("san"), N, model.S("jose ca")}},
 	}}
 }
 
@@ -505,6 +509,25 @@ func miscZoo() []miscItem {
 		})},
 		{"Filter(enum col vs enum with the same values in another order)", true, fr(func(q qframe.QFrame) qframe.QFrame {
 			return q.Filter(qframe.Filter{Column: "e", Comparator: "=", Arg: col("e4")})
+		})},
+		{"New(three or four columns, a middle one of another length)", true, fr(func(q qframe.QFrame) qframe.QFrame {
+			if r := qframe.New(map[string]interface{}{"a": []int{1, 2, 3}, "b": []int{1, 2}, "c": []int{1, 2, 3}}); r.Err == nil {
+				return r
+			}
+			if r := qframe.New(map[string]interface{}{"a": []int{1, 2, 3}, "b": []float64{1, 2, 3}, "c": qframe.ConstInt{Val: 1, Count: 4}, "d": []bool{true, false, true}}); r.Err == nil {
+				return r
+			}
+			return qframe.New(map[string]interface{}{"a": []int{1, 2, 3}, "b": []string{"x"}, "c": []int{1, 2, 3}}, newqf.ColumnOrder("c", "b", "a"))
+		})},
+		{"Filter(enum col vs enum type with other value boundaries), all comparators", true, fr(func(q qframe.QFrame) qframe.QFrame {
+			for _, cmp := range []string{"=", "!=", "<", "<=", ">", ">="} {
+				for _, inv := range []bool{false, true} {
+					if r := q.Filter(qframe.Filter{Column: "e5", Comparator: cmp, Arg: col("e6"), Inverse: inv}); r.Err == nil {
+						return r
+					}
+				}
+			}
+			return q.Filter(qframe.Filter{Column: "e6", Comparator: "=", Arg: col("e5")})
 		})},
 		{"Filter(enum col < enum with the same values in another order)", true, fr(func(q qframe.QFrame) qframe.QFrame {
 			return q.Filter(qframe.Not(qframe.Filter{Column: "e4", Comparator: "<", Arg: col("e")}))
